@@ -26,7 +26,7 @@ DEEP_CLASSES = {
     "prim": ("u32", []), "zstruct": ("P1", []), "dstruct": ("D1", []), "zseq": ("Vec<u16>", []), "dseq": ("Vec<String>", []),
     "string": ("String", []), "option": ("Option<u64>", []), "zst": ("()", []), "arr": ("[u8; 2]", []),
     "pA": ("A", ["A"]), "pB": ("B", ["B"]), "vI": ("Vec<I>", ["I"]), "aI": ("[I; 2]", ["I"]), "oI": ("Option<I>", ["I"]),
-    "nI": ("G1<I>", ["I"]), "ph": ("PhantomData<Q>", ["Q"]), "cN": ("[u16; N]", ["N"]),
+    "nI": ("G1<I>", ["I"]), "cfI": ("ControlFlow<u16, I>", ["I"]), "g2I": ("G2<u8, Vec<I>>", ["I"]), "ph": ("PhantomData<Q>", ["Q"]), "cN": ("[u16; N]", ["N"]),
 }
 ZERO_CLASSES = {
     "u8": ("u8", []), "prim": ("u32", []), "u64": ("u64", []), "f64": ("f64", []), "zstruct": ("P1", []), "zst": ("()", []), "arr": ("[u16; 3]", []),
@@ -75,7 +75,7 @@ def needed_of(classes, table):
 def enum_structs(tier):
     """yield (id, Def)"""
     maxf = 3 if tier == "thorough" else 2
-    deep_cls = list(DEEP_CLASSES) if tier == "thorough" else ["prim", "zstruct", "dseq", "string", "zst", "pA", "pB", "vI", "oI", "nI", "ph", "cN"]
+    deep_cls = list(DEEP_CLASSES) if tier == "thorough" else ["prim", "zstruct", "dseq", "string", "zst", "pA", "pB", "vI", "oI", "nI", "cfI", "g2I", "ph", "cN"]
     zero_cls = list(ZERO_CLASSES) if tier == "thorough" else ["u8", "u64", "zstruct", "zst", "arr", "pA", "ph", "cN"]
     out = []
     # unit structs
@@ -209,7 +209,8 @@ def instantiations(d, tier):
 HEAD = """#![allow(dead_code, unused_imports, unused_variables, non_camel_case_types, non_snake_case)]
 use core::marker::PhantomData;
 use epserde::prelude::*;
-use udefs::{P1, D1, G1, EU};
+use udefs::{P1, D1, G1, G2, EU};
+use core::ops::ControlFlow;
 use vcore::model::*;
 #[global_allocator]
 static ALLOC: vcore::env::Tracking = vcore::env::Tracking;
